@@ -264,12 +264,16 @@ static void runPairTo(Sink& s, GEOSContextHandle_t h, const GeometryFactory* gf,
     }
     ok = GEOSHausdorffDistance_r(h, A, B, &v); s += " h " + num(ok, v);
     ok = GEOSHausdorffDistance_r(h, B, A, &v); s += " hs " + num(ok, v);
-    ok = GEOSHausdorffDistanceDensify_r(h, A, B, 0.5, &v); s += " hd 2 " + num(ok, v);
-    ok = GEOSHausdorffDistanceDensify_r(h, B, A, 0.25, &v); s += " hsd 4 " + num(ok, v);
+    // densify fractions: each segment is cut into n = nearest integer to 1/frac equal parts; fractions with a tie are avoided
+    static const struct { double f; int n; } FR[] = {{0.5, 2}, {0.25, 4}, {0.3, 3}, {0.15, 7}, {0.6, 2}, {0.7, 1}, {0.28, 4}, {0.65, 2}, {1.0, 1}, {0.35, 3}, {0.22, 5}, {0.45, 2}};
+    unsigned long frc = 1469598103u; for (char ch : ta + tb) frc = (frc ^ (unsigned char) ch) * 16777619u;     // per-pair, replayable
+    const auto& f1 = FR[(frc >> 8) % 12]; const auto& f2 = FR[(frc >> 16) % 12];
+    ok = GEOSHausdorffDistanceDensify_r(h, A, B, f1.f, &v); s += " hd " + std::to_string(f1.n) + " " + num(ok, v);
+    ok = GEOSHausdorffDistanceDensify_r(h, B, A, f2.f, &v); s += " hsd " + std::to_string(f2.n) + " " + num(ok, v);
     ok = GEOSFrechetDistance_r(h, A, B, &v); s += " f " + num(ok, v);
     ok = GEOSFrechetDistance_r(h, B, A, &v); s += " fs " + num(ok, v);
-    ok = GEOSFrechetDistanceDensify_r(h, A, B, 0.5, &v); s += " fd 2 " + num(ok, v);
-    ok = GEOSFrechetDistanceDensify_r(h, B, A, 0.25, &v); s += " fsd 4 " + num(ok, v);
+    ok = GEOSFrechetDistanceDensify_r(h, A, B, f2.f, &v); s += " fd " + std::to_string(f2.n) + " " + num(ok, v);
+    ok = GEOSFrechetDistanceDensify_r(h, B, A, f1.f, &v); s += " fsd " + std::to_string(f1.n) + " " + num(ok, v);
     GEOSPreparedGeom_destroy_r(h, pa); GEOSPreparedGeom_destroy_r(h, pb);
     s += dok && d == 0 ? " Z" : " NZ";
 }
